@@ -219,7 +219,7 @@ func parseContractFile(path, pkgPath string, pc *PkgContracts) error {
 
 var funcHeadRe = regexp.MustCompile(`^(?:\(\s*(\w+)\s+(\*?)([\w\./\[\]\$,]+)\s*\)\s*)?([\w\./\$]+)\s*$`)
 var loopHeadRe = regexp.MustCompile(`^(.*?)\s*#(\d+)\s*$`)
-var specHeadRe = regexp.MustCompile(`^(?:\(\s*(\w+)\s+\*?([\w\.]+)\s*\)\s*)?(\w+)\s*\(([^)]*)\)\s*([\w\.\[\]\*]*)\s*=\s*(.*)$`)
+var specHeadRe = regexp.MustCompile(`^(?:\(\s*(\w+)\s+\*?([\w\.]+)(?:\[[\w, ]*\])?\s*\)\s*)?(\w+)\s*\(([^)]*)\)\s*([\w\.\[\]\*]*)\s*=\s*(.*)$`)
 
 func funcKey(star, recvType, name string) string {
 	if recvType == "" {
